@@ -3,6 +3,7 @@
 Confirms a seeded change (patch.diff + demo_test.go) in a scratch worktree of /repo, then runs the
 named checks against the changed tree (VERIF_REPO=<worktree>), and prints a one-line verdict per check."""
 import json, os, re, shutil, subprocess, sys, tempfile
+ROOT = os.path.dirname(os.path.dirname(os.path.abspath(__file__)))  # this copy of /verif (a vp-run snapshot works too)
 args = sys.argv[1:]
 tier = "quick"
 if "--tier" in args:
@@ -11,6 +12,7 @@ skip = "--skip-confirm" in args
 if skip: args.remove("--skip-confirm")
 seed, props = os.path.abspath(args[0]), args[1:]
 env = dict(os.environ, GOFLAGS="-mod=mod", GOPROXY="off", GOSUMDB="off", GOTOOLCHAIN="local")
+os.makedirs("/tmp/seed", exist_ok=True)
 wt = tempfile.mkdtemp(prefix="eval-", dir="/tmp/seed")
 os.rmdir(wt)
 def sh(cmd, cwd=None, **kw):
@@ -43,7 +45,7 @@ try:
         if not skip:
             b = sh(["go", "build", "./..."], cwd=wt)
             res["builds"] = b.returncode == 0
-            s = sh(["python3", "/verif/tools/baseline_check.py", wt])
+            s = sh(["python3", os.path.join(ROOT, "tools", "baseline_check.py"), wt])
             res["suite_passes_with_patch"] = s.returncode == 0
             if s.returncode != 0: res["suite_out"] = s.stdout[-1500:]
             if tname:
@@ -51,7 +53,7 @@ try:
                 res["demo_fails_with_patch"] = not ok
         for pid in props:
             e = dict(env, VERIF_REPO=wt, VERIF_EVIDENCE_DIR="/tmp/seed/evidence", VERIF_REPLAY_DIR="/tmp/seed/replays")
-            c = sh([os.path.join("/verif", "vcheck"), pid, tier], cwd="/verif", env=None) if False else subprocess.run(["/verif/vcheck", pid, tier], cwd="/verif", env=e, stdout=subprocess.PIPE, stderr=subprocess.STDOUT, text=True)
+            c = subprocess.run([os.path.join(ROOT, "vcheck"), pid, tier], cwd=ROOT, env=e, stdout=subprocess.PIPE, stderr=subprocess.STDOUT, text=True)
             sigs = re.findall(r"signature: (\S+)", c.stdout)
             res["check_" + pid] = {"rc": c.returncode, "signatures": sigs[:8], "tail": c.stdout[-300:] if c.returncode not in (0, 1) else ""}
 finally:
